@@ -15,6 +15,9 @@
     "b.test" = [98,46,116,101,115,116]        "443" = [52,52,51]
     "::1" = [58,58,49]                        "1.2.3.4" = [49,46,50,46,51,46,52]
     "http" = [104,116,116,112]                "https" = [104,116,116,112,115]
+    "8443" = [56,52,52,51]                    "80" = [56,48]
+    "a.test$"-style end anchors are the harness's business (regular expressions belong to C17);
+    here a list is any pair of predicates `incl excl : Bytes → Bool`, or a finite table of verdicts.
 -/
 import FwdVerif.Lemmas.C07
 
@@ -213,6 +216,59 @@ theorem c07_no_config_tunnelled (f : Option (Bytes → Bool)) (a : Bytes) :
 example : urlHostname [97,46,116,101,115,116,58,52,52,51] = [97,46,116,101,115,116] := by decide
 example : urlHostname [91,58,58,49,93,58,52,52,51] = [58,58,49] := by decide
 
+/-- the lists are asked about the host name ALONE: for `host:port` with any numeric port the
+    filter's argument is `host` -/
+theorem c07_filter_sees_hostname (f : Bytes → Bool) {h p : Bytes} (h2 : (91 : UInt8) ∉ h)
+    (hp : p.all isDigit = true) : shouldMITM true (some f) (h ++ 58 :: p) = f h := by
+  simp [shouldMITM, urlHostname_host_port h2 hp]
+
+/-- … and for `[v6]:port` it is what stands between the brackets -/
+theorem c07_filter_sees_hostname_bracketed (f : Bytes → Bool) (v : Bytes) {p : Bytes}
+    (hp : p.all isDigit = true) : shouldMITM true (some f) (91 :: (v ++ 93 :: 58 :: p)) = f v := by
+  simp [shouldMITM, urlHostname_bracketed v hp]
+
+/-- the decision does not depend on the port: same host, any two numeric ports, any filter, with
+    or without MITM configuration -/
+theorem c07_filter_ignores_port (cfg : Bool) (f : Option (Bytes → Bool)) {h p q : Bytes}
+    (h2 : (91 : UInt8) ∉ h) (hp : p.all isDigit = true) (hq : q.all isDigit = true) :
+    connectPath cfg f (h ++ 58 :: p) = connectPath cfg f (h ++ 58 :: q) := by
+  simp [connectPath, shouldMITM, urlHostname_host_port h2 hp, urlHostname_host_port h2 hq]
+
+theorem c07_filter_ignores_port_bracketed (cfg : Bool) (f : Option (Bytes → Bool)) (v : Bytes)
+    {p q : Bytes} (hp : p.all isDigit = true) (hq : q.all isDigit = true) :
+    connectPath cfg f (91 :: (v ++ 93 :: 58 :: p)) = connectPath cfg f (91 :: (v ++ 93 :: 58 :: q)) := by
+  simp [connectPath, shouldMITM, urlHostname_bracketed v hp, urlHostname_bracketed v hq]
+
+/-- an excluded host is tunnelled on EVERY port (443, 8443, 80, …) -/
+theorem c07_excluded_tunnelled_any_port (incl excl : Bytes → Bool) {h p : Bytes}
+    (h2 : (91 : UInt8) ∉ h) (hp : p.all isDigit = true) (he : excl h = true) :
+    connectPath true (some (domainsMatch incl excl)) (h ++ 58 :: p) = .tunnel :=
+  c07_excluded_tunnelled incl excl _ (by rw [urlHostname_host_port h2 hp]; exact he)
+
+theorem c07_excluded_tunnelled_any_port_bracketed (incl excl : Bytes → Bool) (v : Bytes) {p : Bytes}
+    (hp : p.all isDigit = true) (he : excl v = true) :
+    connectPath true (some (domainsMatch incl excl)) (91 :: (v ++ 93 :: 58 :: p)) = .tunnel :=
+  c07_excluded_tunnelled incl excl _ (by rw [urlHostname_bracketed v hp]; exact he)
+
+-- non-vacuity: an "end-anchored" exclude (true of "a.test" only, not of "a.test:8443") and an
+-- include-everything rule: "a.test:443", "a.test:8443" and "a.test:80" are all tunnelled …
+example :
+    let excl : Bytes → Bool := fun s => s == [97,46,116,101,115,116]
+    connectPath true (some (domainsMatch (fun _ => true) excl)) [97,46,116,101,115,116,58,52,52,51] = .tunnel ∧
+    connectPath true (some (domainsMatch (fun _ => true) excl)) [97,46,116,101,115,116,58,56,52,52,51] = .tunnel ∧
+    connectPath true (some (domainsMatch (fun _ => true) excl)) [97,46,116,101,115,116,58,56,48] = .tunnel := by
+  decide
+-- … also when the list is the finite table the harness hands over, in which the `host:port`
+-- spelling is NOT excluded (what a filter applied to `host:port` would see)
+example :
+    connectPath true (some (tableFilter [([97,46,116,101,115,116], true, true),
+      ([97,46,116,101,115,116,58,56,52,52,51], true, false)])) [97,46,116,101,115,116,58,56,52,52,51] = .tunnel := by
+  decide
+-- "[::1]:8443" with "::1" excluded
+example :
+    connectPath true (some (domainsMatch (fun _ => true) (fun s => s == [58,58,49]))) [91,58,58,49,93,58,56,52,52,51] = .tunnel := by
+  decide
+
 /-! ## E. Requests read from the intercepted session -/
 
 /-- full statement "an intercepted request is always sent with scheme https" — FALSE of the
@@ -304,6 +360,121 @@ theorem c07_insecure_forwards (allowHTTP originVerifies : Bool) :
 theorem c07_valid_origin_forwards (allowHTTP insecure : Bool) :
     interceptedRequest [] allowHTTP insecure true = .deliverTLS := by
   cases allowHTTP <;> cases insecure <;> decide
+
+/-! ## F. Which name the origin's certificate is verified for (DNS names and IP literals alike) -/
+
+/-- `Host: host:port` — the certificate must be valid for `host` -/
+theorem c07_origin_verify_name_host_port {h p : Bytes} (h2 : (91 : UInt8) ∉ h)
+    (hp : p.all isDigit = true) : originVerifyName (h ++ 58 :: p) = h :=
+  urlHostname_host_port h2 hp
+
+/-- `Host: [v6]:port` — for the literal between the brackets -/
+theorem c07_origin_verify_name_bracketed (v : Bytes) {p : Bytes} (hp : p.all isDigit = true) :
+    originVerifyName (91 :: (v ++ 93 :: 58 :: p)) = v :=
+  urlHostname_bracketed v hp
+
+/-- `Host: host` (default port) -/
+theorem c07_origin_verify_name_portless {h : Bytes} (h1 : (58 : UInt8) ∉ h) (h2 : (91 : UInt8) ∉ h) :
+    originVerifyName h = h :=
+  urlHostname_plain h1 h2
+
+example : originVerifyName [91,58,58,49,93] = [58,58,49] := by decide              -- "[::1]"
+
+/-- a certificate whose SAN is of the wrong kind or names something else is refused, whatever the
+    authority (chain and dates may be perfectly good): 502, nothing delivered -/
+theorem c07_origin_wrong_name_refused (allowHTTP : Bool) (c : Cert) (a : Bytes) (now : Int)
+    (hbad : c.kind ≠ san (originVerifyName a) ∨ eqFold c.sanVal (originVerifyName a) = false) :
+    interceptedTo x509ish [] allowHTTP false c a now = .refused502 ∧
+      (interceptedTo x509ish [] allowHTTP false c a now).delivered = false := by
+  apply interceptedTo_refused
+  rcases hbad with h | h
+  · have : (c.kind == san (originVerifyName a)) = false := by simpa using h
+    simp [originVerifies, x509ish, this]
+  · simp [originVerifies, x509ish, h]
+
+/-- IPv4-literal authority, any port: the name verified is the literal itself (never empty), and a
+    certificate issued for DNS names only, or for another address, is refused -/
+theorem c07_origin_name_checked_for_ip_literals {a b c d : Nat} (ha : a < 256) (hb : b < 256)
+    (hc : c < 256) (hd : d < 256) {p : Bytes} (hp : p.all isDigit = true) (allowHTTP : Bool)
+    (crt : Cert) (now : Int)
+    (hbad : crt.kind = .dns ∨ eqFold crt.sanVal (dotted a b c d) = false) :
+    originVerifyName (dotted a b c d ++ 58 :: p) = dotted a b c d ∧ dotted a b c d ≠ [] ∧
+      interceptedTo x509ish [] allowHTTP false crt (dotted a b c d ++ 58 :: p) now = .refused502 ∧
+      (interceptedTo x509ish [] allowHTTP false crt (dotted a b c d ++ 58 :: p) now).delivered = false := by
+  obtain ⟨⟨_, h91, _⟩, hne⟩ := dotted_plain ha hb hc hd
+  have hn := c07_origin_verify_name_host_port h91 hp
+  refine ⟨hn, hne, ?_⟩
+  apply c07_origin_wrong_name_refused
+  rw [hn, c07_san_ipv4 ha hb hc hd]
+  rcases hbad with h | h
+  · left; rw [h]; decide
+  · right; exact h
+
+-- "203.0.113.7:8443" and a certificate for the DNS name "a.test", good chain and dates
+example :
+    interceptedTo x509ish [] true false
+      { cn := [97,46,116,101,115,116], kind := .dns, sanVal := [97,46,116,101,115,116],
+        notBefore := 0, notAfter := 10, byCA := true }
+      ([50,48,51,46,48,46,49,49,51,46,55] ++ 58 :: [56,52,52,51]) 5 = .refused502 := by decide
+
+/-- bracketed IPv6-literal authority, any port: likewise -/
+theorem c07_origin_name_checked_for_ipv6_literals {v : Bytes} (hv : isIP v = true) {p : Bytes}
+    (hp : p.all isDigit = true) (allowHTTP : Bool) (crt : Cert) (now : Int)
+    (hbad : crt.kind = .dns ∨ eqFold crt.sanVal v = false) :
+    originVerifyName (91 :: (v ++ 93 :: 58 :: p)) = v ∧
+      interceptedTo x509ish [] allowHTTP false crt (91 :: (v ++ 93 :: 58 :: p)) now = .refused502 ∧
+      (interceptedTo x509ish [] allowHTTP false crt (91 :: (v ++ 93 :: 58 :: p)) now).delivered = false := by
+  have hn := c07_origin_verify_name_bracketed v hp
+  refine ⟨hn, ?_⟩
+  apply c07_origin_wrong_name_refused
+  rw [hn]
+  have hs : san v = .ip := by simp [san, hv]
+  rcases hbad with h | h
+  · left; rw [h, hs]; decide
+  · right; exact h
+
+-- "[::1]:443" and a certificate with the IP SAN "::2"
+example :
+    interceptedTo x509ish [] true false
+      { cn := [58,58,50], kind := .ip, sanVal := [58,58,50], notBefore := 0, notAfter := 10, byCA := true }
+      [91,58,58,49,93,58,52,52,51] 5 = .refused502 := by decide
+
+/-- outside its validity period: refused, for every authority -/
+theorem c07_origin_expired_refused (allowHTTP : Bool) (c : Cert) (a : Bytes) (now : Int)
+    (h : now < c.notBefore ∨ c.notAfter < now) :
+    interceptedTo x509ish [] allowHTTP false c a now = .refused502 ∧
+      (interceptedTo x509ish [] allowHTTP false c a now).delivered = false := by
+  apply interceptedTo_refused
+  rcases h with h | h
+  · have : ¬ c.notBefore ≤ now := by omega
+    simp [originVerifies, x509ish, this]
+  · have : ¬ now ≤ c.notAfter := by omega
+    simp [originVerifies, x509ish, this]
+
+/-- no chain to a trusted root: refused, for every authority -/
+theorem c07_origin_untrusted_refused (allowHTTP : Bool) (c : Cert) (a : Bytes) (now : Int)
+    (h : c.byCA = false) :
+    interceptedTo x509ish [] allowHTTP false c a now = .refused502 ∧
+      (interceptedTo x509ish [] allowHTTP false c a now).delivered = false := by
+  apply interceptedTo_refused
+  simp [originVerifies, x509ish, h]
+
+/-- a certificate that is good for the name is served, insecure mode on or off -/
+theorem c07_origin_good_forwards (allowHTTP insecure : Bool) (c : Cert) (a : Bytes) (now : Int)
+    (h1 : c.byCA = true) (h2 : c.notBefore ≤ now) (h3 : now ≤ c.notAfter)
+    (h4 : c.kind = san (originVerifyName a)) (h5 : eqFold c.sanVal (originVerifyName a) = true) :
+    interceptedTo x509ish [] allowHTTP insecure c a now = .deliverTLS := by
+  have : originVerifies x509ish c a now = true := by
+    simp [originVerifies, x509ish, h1, h2, h3, h4, h5]
+  unfold interceptedTo
+  rw [this]
+  exact c07_valid_origin_forwards allowHTTP insecure
+
+/-- insecure mode: any certificate, any verifier -/
+theorem c07_origin_insecure_any_cert (vf : Verifier) (allowHTTP : Bool) (c : Cert) (a : Bytes)
+    (now : Int) : interceptedTo vf [] allowHTTP true c a now = .deliverTLS := by
+  unfold interceptedTo
+  exact c07_insecure_forwards allowHTTP _
 
 end C07
 end FwdVerif
